@@ -92,8 +92,16 @@ def metric_history_fails(chk, name, cls, dict_metric, ncalls):
             pass
         sign = -1.0 if getattr(shared, "bigger_is_better", False) else 1.0
         done = 0
+        prev = None
         for t in range(ncalls):
             y, p = gen_pair(rng, dict_metric, style)
+            if prev is not None and t % 4 == 3:
+                # the caller reuses ONE prediction dict object and refreshes it in place, same target: still a new evaluation
+                y0, p0 = prev
+                p0.clear()
+                p0.update(p)
+                y, p = y0, p0
+            prev = (y, p)
             try:
                 want = fresh_value(cls, y, p, dict_metric)
             except Exception:
